@@ -397,6 +397,7 @@ class Sys:
             _run(self.dispatcher.on_client_disconnect(self.channel))
             m.connected = False
             m.registered = False                      # the aggregator forgets a disconnected engine
+            m.row_run = m.eng_run                     # what the engine's RecentEngine row can say from now on (written at disconnect)
             if m.eng_run is not None and "disc" not in m.interrupts.setdefault(m.eng_run, []):
                 m.interrupts[m.eng_run] = sorted(m.interrupts[m.eng_run] + ["disc"])
             return "disconnected"
@@ -404,6 +405,8 @@ class Sys:
             self.agg.shutdown()
             _run(self.dispatcher.shutdown())
             self._new_aggregator()
+            if m.connected or m.registered:
+                m.row_run = m.eng_run                 # a graceful shutdown writes the row of every engine it still knows
             m.connected = False
             m.registered = False
             if m.eng_run is not None and "restart" not in m.interrupts.setdefault(m.eng_run, []):
@@ -411,15 +414,15 @@ class Sys:
             return "restarted"
         if ev == "kill":
             # the aggregator process dies (no shutdown handling, nothing is written) and comes back on the same database.
-            # A run whose interruption the database has never heard of (no disconnect / graceful restart during it so far)
-            # cannot be continued: it is taken out of the oracles' scope like a misclosed one; a run that was interrupted
+            # A run whose interruption the database has never heard of (no disconnect / graceful restart during it so far; the
+            # engine's row was last written before this run (re)started) cannot be continued: it is taken out of the oracles' scope like a misclosed one; a run that was interrupted
             # and given back before is expected to be given back again.
             self._new_aggregator()
             m.connected = False
             m.registered = False
             m.kills = getattr(m, "kills", 0) + 1
             if m.eng_run is not None:
-                if m.interrupts.get(m.eng_run):
+                if m.interrupts.get(m.eng_run) and getattr(m, "row_run", None) == m.eng_run:
                     if "kill" not in m.interrupts[m.eng_run]:
                         m.interrupts[m.eng_run] = sorted(m.interrupts[m.eng_run] + ["kill"])
                 elif m.eng_run not in m.misclosed:
@@ -579,7 +582,7 @@ def canon(s: Sys):
     dbk = (plot_logs, entries, values,
            tuple(r[1:] for r in db["recent_runs"]), tuple(r[1:] for r in db["recent_engines"]),
            tuple(tuple(x) for x in db["run_children"]))
-    mk = (getattr(m, "kills", 0) > 0, m.bounces, m.registered, m.connected, m.uod_since_reg, m.eng_run, tuple(m.started), tuple(m.stopped), tuple(m.superseded), tuple(m.reopened), tuple(m.misclosed), tuple(m.misclosed_restarted),
+    mk = (getattr(m, "kills", 0) > 0, getattr(m, "row_run", None), m.bounces, m.registered, m.connected, m.uod_since_reg, m.eng_run, tuple(m.started), tuple(m.stopped), tuple(m.superseded), tuple(m.reopened), tuple(m.misclosed), tuple(m.misclosed_restarted),
           tuple(sorted((k, tuple(v)) for k, v in m.interrupts.items())),
           tuple(sorted((tag, rel(t)) for tag, t in m.reports)),
           tuple(sorted((tag, rel(t)) for tag, t in m.last_report.items())))
